@@ -360,6 +360,9 @@ func calcStatusCode(cfg *ResponseConfig, a *asset, segmentPart string, nowMS int
 		if nrWraps > 0 {
 			lastNr := findLastSegNr(cfg, a, (wrapStartS+cfg.StartTimeS)*1000, segMeta.rep)
 			firstNr = lastNr + 1
+			if firstNr < 0 {
+				firstNr = 0 // No segment has ended at the cycle start (cycle shorter than the first segment)
+			}
 		}
 		segTime := findSegStartTime(a, cfg, firstNr+cfg.getStartNr(), segMeta.rep)
 		if segTime < wrapStartS*repTimescale {
